@@ -524,6 +524,7 @@ func finishCheck(id string, opts checkOpts, eng *Engine, t0 time.Time, replayDir
 			// other failing class (or an unclassified failure) is a violation
 			classes, _ := b["failing_classes"].(map[string]string)
 			unknown := 0
+			var unknownFirst []string
 			var knownLines []string
 			for cl, first := range classes {
 				name := "bounded:" + b["file"].(string) + "#" + cl
@@ -539,6 +540,7 @@ func finishCheck(id string, opts checkOpts, eng *Engine, t0 time.Time, replayDir
 				}
 				if !isKnown {
 					unknown++
+					unknownFirst = append(unknownFirst, first)
 				}
 			}
 			sort.Strings(knownLines)
@@ -549,7 +551,14 @@ func finishCheck(id string, opts checkOpts, eng *Engine, t0 time.Time, replayDir
 			if unknown > 0 || len(classes) == 0 || b["error"] != nil {
 				violations++
 				fmt.Printf("VIOLATION property=%s replay=%s\n", id, b["replay"])
-				fmt.Printf("  bounded check %s: %v failing case(s): %v\n", b["file"], b["failures"], b["first_failure"])
+				sort.Strings(unknownFirst)
+				if len(unknownFirst) == 0 {
+					unknownFirst = []string{fmt.Sprint(b["first_failure"])}
+				}
+				for _, uf := range unknownFirst {
+					fmt.Printf("  bounded check %s: %s\n", b["file"], firstLines(uf, 1))
+				}
+				b["first_unlisted_failures"] = unknownFirst
 			} else {
 				b["known_finding_classes_only"] = true
 			}
